@@ -86,8 +86,9 @@ def _diff(a, b, path=''):
 
 def execute(case):
     hc = {"watchers": copy.deepcopy(WATCHERS), "ops": [],
-          "tape": [], "default_beh": case.get("default_beh") or
-          {"react": "ignore"}}
+          "tape": [], "default_beh": dict(
+              case.get("default_beh") or {"react": "ignore"},
+              children=[{"react": "die", "delay": 0.0}])}
     if case.get("owner_mode"):
         hc["arbiter"] = {"endpoint": "ipc:///nonexistent/verif.sock",
                          "endpoint_owner": "root"}
@@ -109,7 +110,20 @@ def execute(case):
             if msg.get("raw") is not None:
                 req = w.send_raw(msg["raw"].encode('latin-1'))
             else:
-                req = w.send_raw(json.dumps(msg["value"]).encode())
+                val = copy.deepcopy(msg["value"])
+                pr = val.get("properties")
+                if isinstance(pr, dict) and ("@worker" in pr.values() or
+                                             "@child" in pr.values()):
+                    nm = pr.get("name")
+                    live = w.live(nm) if isinstance(nm, str) else []
+                    wk = live[0] if live else 99999
+                    kids = w.kernel.children_of(wk) if live else []
+                    for kk_, vv_ in list(pr.items()):
+                        if vv_ == "@worker":
+                            pr[kk_] = wk
+                        elif vv_ == "@child":
+                            pr[kk_] = kids[0] if kids else 99998
+                req = w.send_raw(json.dumps(val).encode())
             after = snapshot(h)
             rep = req.reply() if req.sync_replies else None
             kinds = msg.get("kinds") or ['valid']
@@ -226,11 +240,19 @@ def _strategy():
                 p["signum"] = draw(st.sampled_from([15, "TERM", "sigint"]))
             if draw(st.booleans()):
                 p["graceful_timeout"] = 0.2
+            if draw(st.integers(0, 3)) == 0:
+                p["pid"] = "@worker"
         elif cmd == 'signal':
             p = {"name": n, "signum": draw(st.sampled_from(
                 [15, "HUP", "usr1"]))}
             if draw(st.booleans()):
                 p["children"] = True
+            elif draw(st.booleans()):
+                # resolved when the message is sent: first live worker of
+                # the named watcher / its first child
+                p["pid"] = "@worker"
+                if draw(st.booleans()):
+                    p["childpid"] = "@child"
         elif cmd == 'set':
             p = {"name": n, "options": draw(options())}
         elif cmd in ('start', 'stop', 'restart'):
@@ -263,10 +285,14 @@ def _strategy():
                  'unknown-command', 'unknown-option-key',
                  'ill-typed-option', 'invalid-option-value', 'bad-signal',
                  'dup-name-case', 'owner-mismatch', 'invalid-json',
-                 'ill-typed-envelope', 'none']))
+                 'ill-typed-envelope', 'childpid-without-pid', 'none']))
             opts = p.get("options")
             if kind == 'drop-required' and REQUIRED.get(cmd):
-                key = draw(st.sampled_from(REQUIRED[cmd]))
+                req_keys = list(REQUIRED[cmd])
+                if cmd == 'signal' and 'childpid' in p and 'pid' in p:
+                    # childpid is only meaningful together with pid
+                    req_keys += ['pid', 'pid']
+                key = draw(st.sampled_from(req_keys))
                 if key in p:
                     del p[key]
                     kinds.append('drop-required:' + key)
@@ -324,6 +350,15 @@ def _strategy():
                     kinds.append('owner-mismatch')
             elif kind == 'ill-typed-envelope':
                 kinds.append('ill-typed-envelope')
+            elif kind == 'childpid-without-pid' and not kinds:
+                # a cross-field requirement: childpid needs pid
+                cmd = 'signal'
+                p = {"name": draw(st.sampled_from(['a', 'a', 'A', 'S'])),
+                     "signum": draw(st.sampled_from([15, "HUP", 9])),
+                     "childpid": "@child"}
+                if draw(st.booleans()):
+                    p["recursive"] = True
+                kinds.append('drop-required:pid-of-childpid')
             elif kind == 'invalid-json':
                 raw = draw(st.sampled_from(
                     ['{"command": "stop", "properties": {}',
